@@ -2040,6 +2040,50 @@ class Engine:
                     else:
                         raise OutOfSubset(f"sum of lengths over {lst.ty}")
                 return out
+        if e.func.id in ("all", "any", "max", "min") and len(g.generators) == 1 and not g.generators[0].ifs and len(e.args) == 1 and isinstance(g.generators[0].target, ast.Name):
+            # over a tuple (a fixed number of elements): evaluated element by element as Python does, all()/any() with
+            # their short circuit; exceptions of the element expression propagate
+            gen0 = g.generators[0]
+            probe = self.ev(gen0.iter, st.clone(), [])
+            if probe and all(isinstance(v.ty, TTuple) for _, v in probe):
+                out = []
+                for s, tup in self.ev(gen0.iter, st, exc):
+                    elems = list(tup.z)
+                    if e.func.id in ("max", "min") and not elems:
+                        raise OutOfSubset(f"{e.func.id}() of an empty sequence at L{e.lineno}")
+                    pending = [(s, [])]
+                    for el in elems:
+                        nxt = []
+                        for s1, acc in pending:
+                            fr = Frame(s1.cur, s1.frames[s1.cur].func)
+                            fr.vars[gen0.target.id] = el
+                            s1.frames.append(fr)
+                            saved = s1.cur
+                            s1.cur = len(s1.frames) - 1
+                            for s2, v in self.ev(g.elt, s1, exc):
+                                s2.cur = saved
+                                if e.func.id in ("all", "any"):
+                                    for s3, side in self.fork(s2, self.truth(s2, v), e.lineno):
+                                        if side == (e.func.id == "any"):
+                                            out.append((s3, mk_bool(e.func.id == "any")))  # decided: stop here
+                                        else:
+                                            nxt.append((s3, acc))
+                                else:
+                                    if v.ty not in (INT, REAL):
+                                        raise OutOfSubset(f"{e.func.id}() over {v.ty} at L{e.lineno}")
+                                    nxt.append((s2, acc + [v]))
+                        pending = nxt
+                    for s1, acc in pending:
+                        if e.func.id in ("all", "any"):
+                            out.append((s1, mk_bool(e.func.id == "all")))
+                        else:
+                            real = any(v.ty == REAL for v in acc)
+                            zs = [z3.ToReal(v.z) if real and v.ty == INT else v.z for v in acc]
+                            r = zs[0]
+                            for z in zs[1:]:
+                                r = z3.If(z > r, z, r) if e.func.id == "max" else z3.If(z < r, z, r)
+                            out.append((s1, Val(REAL if real else INT, r)))
+                return out
         if e.func.id in ("all", "any") and len(g.generators) == 1 and not g.generators[0].ifs and len(e.args) == 1 and isinstance(g.generators[0].target, ast.Name):
             # all(test(x) for x in xs) over a list: the test is evaluated once on the element at a bound position k
             # and closed under a quantifier.  Only a test that neither forks, raises nor learns anything is taken.
